@@ -5,12 +5,21 @@ Correspondence: bounded op sequences (reset_async/reset_wait/step_async/step_wai
 call_wait/set_attr, the synchronous wrappers reset/step/call/get_attr/render, close and garbage
 collection of an unclosed env; waits with timeout None / 0.25 / 0 / 0.001, close plain / timeout /
 timeout=0 / terminate; legal and misused) × fault scripts (worker, command, occurrence,
-raise T | sleep | stuck | kill; T ranges over builtin, user-defined, BaseException-only and — when the
-tree forwards them — oddly constructed / unpicklable exception classes) are run against the REAL
+raise T | sleep | stuck | kill | busykill (= busy past the short timeouts, then dead without a reply);
+command also `close` = inside the sub-environment's OWN close(), which the worker runs after it reported an
+error or acknowledged `close`; T ranges over builtin, user-defined, BaseException-only and — when the
+tree forwards them — every pickling pathology: constructor signature mismatch, instance that cannot be
+pickled / rebuilt, class that cannot be pickled by reference) are run against the REAL
 `AsyncPettingZooVecEnv`, every scenario in its own child process (own session / process group,
 wall-clock guard per op, so a hang is an outcome `hang`, never a stuck harness), and against
 `Model/VecProto.lean` (`fixed = true`).  Compared per op: outcome (ok | error class | hang), `_state`,
 `closed`; after a `close` that returned: the `is_alive()` vector.
+
+Directed families in every run (gen_directed a–c, gen_exc_pathologies d, gen_handshake_deaths e,
+gen_subenv_close_faults f): rejected calls × pending kind with provenance; timeout values × close variants ×
+stuck / sleeping / killed worker; forwarded exception classes × command; pickling pathologies × command;
+worker death during the close handshake (pending replies / unread `close` after a timed-out wait, long close
+timeout); sub-environment close() stuck / slow / killing / raising × trigger × bounded close variant.
 
 Oracle (the statement itself, evaluated on the implementation's outputs only): misuse ⇒ documented
 error class, state untouched, and without faults every legal call still succeeds; a scripted
@@ -52,13 +61,26 @@ MAX_TIMED = 4        # timed calls per scenario (keeps Σ timeouts well below SL
 
 SETTLE_ERR_S = 0.25  # pause after a call that raised (a failed worker is shutting down)
 PRE_SETTLE_S = 0.3   # extra pause before a call with a zero / tiny time budget (replies must be there)
-TMO = {0: None, 1: TIMEOUT_S, 2: 0, 3: 0.001}     # wire code of a timeout argument → seconds
+BUSY_S = 2.0         # `busykill`: busy for this long (outlasts every short timeout), then the worker dies
+LONG_S = 5.0         # a timeout that outlasts BUSY_S (only used where nothing is stuck for good)
+TMO = {0: None, 1: TIMEOUT_S, 2: 0, 3: 0.001, 4: LONG_S}     # wire code of a timeout argument → seconds
 
 CMDS = ["reset", "step", "call", "set_attr"]
 EXC_NAMES = ["ValueError", "RuntimeError", "ZeroDivisionError", "CustomFault", "IndexError",
-             "KeyboardInterrupt", "FileNotFoundError", "TwoArgsFault", "KwOnlyFault", "UnpicklableFault"]
+             "KeyboardInterrupt", "FileNotFoundError", "TwoArgsFault", "KwOnlyFault", "UnpicklableFault",
+             "LocalClassFault", "DynamicTypeFault", "ShadowedClassFault",
+             "UnpicklableStateFault", "ReduceRaisesFault", "LoadFailsFault"]
 PLAIN_EXC = EXC_NAMES[:7]                 # forwarded by every tree we accept
 ODD_EXC = ["TwoArgsFault", "KwOnlyFault"]  # need the constructor-independent re-raise
+# pickling pathologies (envs_fault.py): the CLASS cannot be pickled by reference (defined in a closure, made
+# with type(), shadowed by another object of the same qualified name) / the INSTANCE cannot be pickled
+# (unpicklable argument, unpicklable attribute, __reduce__ raises) or cannot be rebuilt (wrong reduce recipe)
+CLASS_UNPICKLABLE = ["LocalClassFault", "DynamicTypeFault", "ShadowedClassFault"]
+INSTANCE_UNPICKLABLE = ["UnpicklableFault", "UnpicklableStateFault", "ReduceRaisesFault", "LoadFailsFault"]
+# an object of a class that does not exist in the parent cannot arrive as that class: the documented
+# fallback is RuntimeError("<ClassName>: <message>") — what matters is that it ARRIVES (no hang)
+ARRIVES_AS = {c: "RuntimeError" for c in CLASS_UNPICKLABLE}
+NO_MODEL_KINDS = {"busykill"}             # fault kinds without a counterpart in Model/VecProto.lean: oracle only
 SYNC_OF = {"reset": "reset", "step": "step", "call": "call", "get_attr": "call", "render": "call"}
 PROTOCOL_ERRORS = {"AlreadyPendingCallError", "NoAsyncCallError", "ClosedEnvironmentError",
                    "mp.TimeoutError", "EOFError", "BrokenPipeError", "AttributeError", "KeyError", "TypeError"}
@@ -67,6 +89,10 @@ WAIT_OF = {"reset_wait": "reset", "step_wait": "step", "call_wait": "call"}
 
 
 # ============================================================================ scenario child
+def arrives_as(names) -> set:
+    return set(names) | {ARRIVES_AS[x] for x in names if x in ARRIVES_AS}
+
+
 def canon_exc(e: BaseException, opname: str) -> str:
     t = type(e)
     name = t.__name__
@@ -142,6 +168,23 @@ def apply_patch(patch: str | None) -> None:
         ns = dict(m.__dict__)
         exec(src, ns)          # noqa: S102 — self-test only, inside the scenario child
         m._async_worker = ns["_async_worker"]
+    elif patch == "class_pickle_shortcut":
+        orig_sp = m._survives_pickling
+        m._survives_pickling = lambda obj: True if isinstance(obj, type) else orig_sp(obj)
+    elif patch in ("close_handshake_narrow_except", "no_terminate_after_budget"):
+        import inspect
+        import textwrap
+        src = textwrap.dedent(inspect.getsource(cls.close_extras))
+        if patch == "close_handshake_narrow_except":
+            new = src.replace("except (EOFError, OSError):", "except (EOFError, BrokenPipeError):")
+        else:
+            head, sep, tail = src.rpartition("process.terminate()")
+            new = head + "pass" + tail if sep else src
+        if new == src:
+            raise InfraError(f"C13 self-test: cannot seed `{patch}` (close_extras no longer has the statement)")
+        ns = dict(m.__dict__)
+        exec(new, ns)          # noqa: S102 — self-test only, inside the scenario child
+        cls.close_extras = ns["close_extras"]
     else:
         raise ValueError(patch)
 
@@ -160,7 +203,8 @@ def scenario_child(scn: dict, wfd: int) -> None:
     from agilerl.vector.pz_async_vec_env import AsyncPettingZooVecEnv
     apply_patch(scn.get("patch"))
     n = scn["n"]
-    script = [(w, c, k, kind, (SLEEP_S if kind == "sleep" else arg)) for (w, c, k, kind, arg) in scn["script"]]
+    script = [(w, c, k, kind, (SLEEP_S if kind == "sleep" else BUSY_S if kind == "busykill" else arg))
+              for (w, c, k, kind, arg) in scn["script"]]
     env = AsyncPettingZooVecEnv(make_fns(n, script))
     procs = list(env.processes)
     out.write(json.dumps({"pids": [p.pid for p in procs]}) + "\n")
@@ -170,7 +214,7 @@ def scenario_child(scn: dict, wfd: int) -> None:
             or name == "gc"
         if zero_budget:
             time.sleep(PRE_SETTLE_S)
-        val = None
+        val = raw = None
         t0 = time.monotonic()
         try:
             if name == "gc":
@@ -184,6 +228,7 @@ def scenario_child(scn: dict, wfd: int) -> None:
             raise
         except BaseException as e:  # noqa: BLE001 — the outcome IS the exception class
             r = canon_exc(e, name)
+            raw = f"{type(e).__name__}: {e}"[:160]
         dt = time.monotonic() - t0
         time.sleep(SETTLE_S if r == "ok" else SETTLE_ERR_S)   # a worker that failed needs time to exit
         if env is None:
@@ -195,6 +240,8 @@ def scenario_child(scn: dict, wfd: int) -> None:
                 rec["alive"] = [int(p.is_alive()) for p in procs]
         if val is not None:
             rec["val"] = val
+        if raw is not None:
+            rec["raw"] = raw
         out.write(json.dumps(rec) + "\n")
         if env is None:
             break
@@ -276,7 +323,7 @@ def provenance(kind: str, ret, n: int) -> str:
 def default_bound(scn: dict) -> float:
     """silence for this long ⇒ `hang`: nothing legitimate takes longer than the scripted sleeps + slack"""
     ns = sum(1 for f in scn["script"] if f[3] == "sleep")
-    return min(OP_BOUND_S, ns * SLEEP_S + 6.0)
+    return min(OP_BOUND_S, ns * SLEEP_S + 6.0)      # (a `busykill` is over after BUSY_S < 6 s)
 
 
 def pid_alive(pid: int) -> int:
@@ -483,7 +530,12 @@ MODEL_OP = {"get_attr": "call", "render": "call"}
 def model_lines(scn: dict, variant: int) -> list[str]:
     parts = ["vecproto", "new", str(scn.get("variant", variant)), str(scn["n"])]
     for (w, c, k, kind, arg) in scn["script"]:
-        parts += [str(w), c, str(k), kind, str(EXC_NAMES.index(arg)) if kind == "raise" else "0"]
+        if c == "close" or kind in NO_MODEL_KINDS:
+            # what a sub-environment does inside its own close() happens after the worker left the protocol: the
+            # model's worker is `exited` from there on (exact when that close() kills the process or raises; a
+            # lingering process and `busykill` have no counterpart: `has_model`, oracle only)
+            continue
+        parts += [str(w), c, str(k), kind, str(EXC_NAMES.index(ARRIVES_AS.get(arg, arg))) if kind == "raise" else "0"]
     lines = [" ".join(parts)]
     for op in scn["ops"]:
         if op[0] == "gc":
@@ -491,6 +543,14 @@ def model_lines(scn: dict, variant: int) -> list[str]:
         else:
             lines.append("vecproto op " + " ".join([MODEL_OP.get(op[0], op[0])] + [str(int(bool(a))) for a in op[1:]]))
     return lines
+
+
+def has_model(scn: dict) -> bool:
+    """`busykill` has no model counterpart; a sub-environment that LINGERS in its own close() (stuck / slow) keeps
+    its end of the pipe open, so a later `send` to it succeeds where the model's exited worker gives
+    BrokenPipeError (seen when its failure reply was never consumed): those scenarios are judged by the oracle
+    only.  A close() that kills the process or raises ends it at once — same as the model's `exited`."""
+    return not any(f[3] in NO_MODEL_KINDS or (f[1] == "close" and f[3] in ("stuck", "sleep")) for f in scn["script"])
 
 
 def canon_model(line: str, opname: str) -> str:
@@ -569,8 +629,10 @@ def oracle(scn: dict, ans: dict, variant: int = 2) -> list[str]:
     fault_seen = False           # anything but a protocol-misuse error has happened
     batches = {c: 0 for c in CMDS}          # commands of each kind delivered to (all) workers so far
     pending_batch = None
-    sleep_owed = SLEEP_S * sum(1 for f in script if f[3] == "sleep")
-    has_stuck = any(f[3] == "stuck" for f in script)
+    sleep_owed = SLEEP_S * sum(1 for f in script if f[3] == "sleep") + BUSY_S * sum(1 for f in script if f[3] == "busykill")
+    has_stuck = any(f[3] == "stuck" and f[1] != "close" for f in script)          # stuck inside a command
+    has_stuck_close = any(f[3] == "stuck" and f[1] == "close" for f in script)    # stuck in the sub-env's own close()
+    allowed_exc = arrives_as({f[4] for f in script if f[3] == "raise"})
     for i, op in enumerate(ops):
         name, kind = op[0], op_kind(op[0])
         if i >= len(res):
@@ -579,9 +641,16 @@ def oracle(scn: dict, ans: dict, variant: int = 2) -> list[str]:
                 unbounded = has_stuck and ((kind == "wait" and not op[1]) or kind in ("sync", "set_attr")
                                            or (kind == "close" and not op[1] and not op[2])
                                            or (kind == "close" and op[1] and not op[2] and variant < 2 and state == "default"))
+                # a sub-environment that never returns from its own close(): only a close without any bound
+                # (or, before the close(timeout) fix, an idle timed close) may wait for it
+                unbounded = unbounded or (has_stuck_close and kind == "close" and not op[2]
+                                          and (not op[1] or (variant < 2 and state == "default")))
                 if not unbounded:
                     extra = f"; workers alive meanwhile: {ans.get('alive_at_hang')}" if kind in ("close", "gc") else ""
-                    problems.append(f"op {i} `{name}` did not return within {scn.get('op_bound', default_bound(scn)):.0f}s (hang){extra}")
+                    shown = name if kind != "close" else "close(" + ", ".join(
+                        ([f"timeout={TMO[op[1]]}"] if op[1] else []) + (["terminate=True"] if op[2] else [])) + ")"
+                    problems.append(f"op {i} `{shown}` did not return within {scn.get('op_bound', default_bound(scn)):.0f}s (hang)"
+                                    f"{extra}; scripted faults (worker, command, occurrence, kind, arg): {script}")
             break
         r = res[i]
         out = r["out"]
@@ -607,11 +676,14 @@ def oracle(scn: dict, ans: dict, variant: int = 2) -> list[str]:
                 bound = CLOSE_SLACK_S
             elif timed and (variant >= 2 or state != "default"):
                 bound = 2 * (TMO[op[1]] or 0) + CLOSE_SLACK_S + (sleep_owed if variant < 2 else 0)
+                if not (has_stuck or has_stuck_close):      # nothing lasts longer than the scripted sleeps
+                    bound = min(bound, sleep_owed + CLOSE_SLACK_S)
             else:
                 bound = sleep_owed + CLOSE_SLACK_S
             what = "close()" if kind == "close" else "garbage collection of the unclosed env"
             if out != "ok":
-                problems.append(f"op {i} {what} raised {out}; workers alive after it: {r.get('alive')}")
+                problems.append(f"op {i} {what} raised {r.get('raw') or out}; closed={r['closed']}, "
+                                f"workers alive after it: {r.get('alive')}")
             else:
                 if any(r.get("alive", [])):
                     problems.append(f"op {i} {what} returned but workers are alive: {r['alive']}")
@@ -636,6 +708,11 @@ def oracle(scn: dict, ans: dict, variant: int = 2) -> list[str]:
                     raises = sorted({f[4] for f in due if f[3] == "raise"})
                     sleeps = [f for f in due if f[3] in ("sleep", "stuck")]
                     kills = [f for f in due if f[3] == "kill"]
+                    busy = [f for f in due if f[3] == "busykill"]
+                    if busy and timed and TMO[op[1]] < BUSY_S:
+                        sleeps = sleeps + busy          # still busy when a short timeout expires
+                    elif busy:
+                        kills = kills + busy            # dies without a reply while the caller waits
                     if kills:
                         if out == "ok" or out in EXC_NAMES:
                             problems.append(f"op {i} `{name}`: a worker was killed but the caller saw {out}")
@@ -646,8 +723,11 @@ def oracle(scn: dict, ans: dict, variant: int = 2) -> list[str]:
                         elif r["dt"] > TMO[op[1]] + CLOSE_SLACK_S:
                             problems.append(f"op {i} `{name}`(timeout={TMO[op[1]]}) reported its timeout after {r['dt']}s")
                     elif raises:
-                        if out not in raises:
-                            problems.append(f"op {i} `{name}`: sub-environment raised {raises}, caller saw {out}")
+                        if out not in arrives_as(raises):
+                            note = "".join(f" (its class cannot be pickled: arrives as {ARRIVES_AS[x]} by the documented "
+                                           f"fallback)" for x in raises if x in ARRIVES_AS)
+                            problems.append(f"op {i} `{name}`: sub-environment raised {raises}{note}, caller saw "
+                                            f"{r.get('raw') or out}")
                     elif out != "ok":
                         problems.append(f"op {i} legal `{name}`{'(timeout=%s)' % TMO[op[1]] if timed else ''} "
                                         f"without a due fault raised {out}")
@@ -662,7 +742,7 @@ def oracle(scn: dict, ans: dict, variant: int = 2) -> list[str]:
                         sleep_owed = max(0.0, sleep_owed - SLEEP_S)
             else:
                 # after a fault: nothing may be invented — a worker exception type must be scripted
-                if out in EXC_NAMES and out not in {f[4] for f in script if f[3] == "raise"}:
+                if out in EXC_NAMES and out not in allowed_exc:
                     problems.append(f"op {i} `{name}` raised {out}, which no sub-environment raises")
             if consumes and r["state"] != "default":
                 problems.append(f"op {i} `{name}` returned ({out}) but left the pending state `{r['state']}` behind")
@@ -778,6 +858,12 @@ def gen_fault(rng, n: int, excs: list, kind=None, exc=None):
             (exc or rng.choice(excs)) if kind == "raise" else None]
 
 
+def gen_close_fault(rng, n: int, exc: str):
+    """a fault inside the sub-environment's own close()"""
+    kind = rng.choice(["stuck", "stuck", "sleep", "kill", "raise"])
+    return [rng.randrange(n), "close", 0, kind, exc if kind == "raise" else None]
+
+
 def gen_directed(rng, excs: list) -> list[dict]:
     """families aimed at one clause each; every quick run contains all of them"""
     scns = []
@@ -834,8 +920,116 @@ def gen_directed(rng, excs: list) -> list[dict]:
     return scns
 
 
+def gen_exc_pathologies(rng, excs: list, full: bool = False) -> list[dict]:
+    """(d) exception marshalling: every pickling pathology the tree claims to forward — constructor signature
+    mismatch, instance that cannot be pickled / rebuilt, CLASS that cannot be pickled by reference (closure,
+    type(), shadowed name) — raised from EVERY command; the error must arrive (own type, or the documented
+    RuntimeError fallback when the class does not exist in the parent), nothing may hang, close must work"""
+    scns = []
+    for exc in [e for e in ODD_EXC + INSTANCE_UNPICKLABLE + CLASS_UNPICKLABLE if e in excs]:
+        for cmd in CMDS:
+            for occ in ((0, 1, 2) if full else (rng.choice([0, 0, 1]),)):
+                n = rng.choice([2, 3])
+                f = [rng.randrange(n), cmd, occ, "raise", exc]
+                ops = drive_to(cmd, occ, rng.choice([0, 0, 1, 2]) if cmd != "set_attr" else 0, rng)
+                scns.append({"n": n, "script": [f], "ops": ops + close_ops(rng.choice(CLOSE_KINDS))})
+    return scns
+
+
+def gen_handshake_deaths(rng, full: bool = False) -> list[dict]:
+    """(e) a worker dies at every point of the shutdown: while close() waits for the replies of the pending call,
+    while it waits for the `close` acknowledgement with `close` (and possibly another command) still unread in
+    the dying worker's socket — after a wait that timed out because that worker was busy —, with and without a
+    (long) close timeout; (already dead before close: the `kill` families; dead after the acknowledgement,
+    inside the sub-environment's close(): family (f))"""
+    scns = []
+    for cmd in ("reset", "step", "call"):
+        for pat in ("unread-close", "unread-close-long-timeout", "pending", "pending-unread-command"):
+            for n, w in (((2, 0), (2, 1), (3, 1), (3, 2)) if full else ((lambda m: (m, rng.randrange(m)))(rng.choice([2, 3])),)):
+                occ = rng.choice([0, 0, 1])
+                short = rng.choice([1, 1, 2, 3])
+                ops = drive_to(cmd, occ, short)          # … [cmd_async, cmd_wait(short timeout)] → mp.TimeoutError
+                if pat == "unread-close":
+                    ops += [["close", 0, 0]]
+                elif pat == "unread-close-long-timeout":
+                    ops += [["close", 4, 0]]
+                elif pat == "pending":
+                    ops = ops[:-1] + [["close", rng.choice([0, 0, 4]), 0]]
+                else:
+                    ops += [[cmd + "_async"], ["close", rng.choice([0, 0, 4]), 0]]
+                ops += [["close", 0, 0], [rng.choice(SYNC_NAMES)]]
+                scns.append({"n": n, "script": [[w, cmd, occ, "busykill", None]], "ops": ops})
+    # the synchronous entry points block until the death, then every close variant
+    for cmd in (("set_attr", "step", "reset", "call") if full else ("set_attr", rng.choice(["step", "reset", "call"]))):
+        n = rng.choice([2, 3])
+        ops = [["set_attr"]] if cmd == "set_attr" else [[rng.choice([x for x, v in SYNC_OF.items() if v == cmd])]]
+        scns.append({"n": n, "script": [[rng.randrange(n), cmd, 0, "busykill", None]],
+                     "ops": ops + close_ops(rng.choice(CLOSE_KINDS))})
+    return scns
+
+
+BOUNDED_CLOSES = [[1, 0], [2, 0], [0, 1], [2, 1], "gc"]
+
+
+def gen_subenv_close_faults(rng, excs: list, full: bool = False) -> list[dict]:
+    """(f) the sub-environment's OWN close() — run by the worker when it leaves its loop — never returns / is slow
+    / kills the process / raises: after the worker reported an exception that reached the caller, after an
+    exception that close() itself collects from the pending call, after a normal `close` acknowledgement, and
+    while ANOTHER worker is the one that failed; × every close variant that promises a bound (timeout, timeout=0,
+    terminate, garbage collection) and, when the clean-up is merely slow, the unbounded close too"""
+    plain = [e for e in PLAIN_EXC if e in excs and e != "KeyboardInterrupt"]
+    scns = []
+
+    def build(kindc, trig, ck):
+        n = rng.choice([2, 3])
+        w = rng.randrange(n)
+        exc = rng.choice(plain)
+        cf = [w, "close", 0, kindc, exc if kindc == "raise" else None]
+        if trig == "after-error":
+            cmd, occ = rng.choice(CMDS), rng.choice([0, 0, 1])
+            script = [[w, cmd, occ, "raise", exc], cf]
+            ops = drive_to(cmd, occ, 0, rng)
+        elif trig == "error-pending":
+            cmd = rng.choice(["reset", "step", "call"])
+            script = [[w, cmd, 0, "raise", exc], cf]
+            ops = ([] if cmd == "reset" else [["reset"]]) + [[cmd + "_async"]]
+        elif trig == "after-ack":
+            script = [cf]
+            ops = [["reset"], [rng.choice(["step", "call", "set_attr"])]]
+        else:       # other-worker-error
+            cmd, occ = rng.choice(CMDS), rng.choice([0, 1])
+            script = [[(w + 1) % n, cmd, occ, "raise", exc], cf]
+            ops = drive_to(cmd, occ, 0, rng)
+        ops = ops + close_ops(ck) + ([["close", 0, 0], [rng.choice(SYNC_NAMES)]] if ck != "gc" else [])
+        return {"n": n, "script": script, "ops": ops}
+
+    trigs = ["after-error", "error-pending", "after-ack", "other-worker-error"]
+    if full:
+        for kindc in ("stuck", "sleep", "kill", "raise"):
+            for trig in trigs:
+                for ck in BOUNDED_CLOSES + ([] if kindc == "stuck" else [[0, 0]]):
+                    scns.append(build(kindc, trig, ck))
+        return scns
+    j = rng.randrange(len(BOUNDED_CLOSES))
+    for trig in trigs:
+        scns.append(build("stuck", trig, [1, 0]))               # the budget must cover the final join as well
+        j += 1
+        scns.append(build("stuck", trig, BOUNDED_CLOSES[1:][j % 4]))
+    for trig in rng.sample(trigs, 2):
+        scns.append(build("sleep", trig, rng.choice([[0, 0], [1, 0]])))
+    # the failing worker's process ends / lingers right after it announced the failure: its error report must
+    # already be on its way (every run: killed after a consumed error, killed with the error still pending, slow)
+    scns.append(build("kill", "after-error", rng.choice(CLOSE_KINDS)))
+    scns.append(build("kill", "error-pending", rng.choice(BOUNDED_CLOSES + [[0, 0]])))
+    scns.append(build("sleep", "after-error", rng.choice([[1, 0], [0, 1]])))
+    for kindc in ("kill", "raise"):
+        scns.append(build(kindc, rng.choice(trigs), rng.choice(CLOSE_KINDS)))
+    return scns
+
+
 def gen_quick(rng, excs: list) -> list[dict]:
     scns = gen_directed(rng, excs)
+    scns += gen_exc_pathologies(rng, excs) + gen_handshake_deaths(rng) + gen_subenv_close_faults(rng, excs)
     # fault-free misuse walks
     for _ in range(5):
         scns.append({"n": rng.choice([1, 2, 3]), "script": [], "ops": gen_ops(rng, rng.randint(4, 9), 0.4, None)})
@@ -866,7 +1060,9 @@ def gen_quick(rng, excs: list) -> list[dict]:
         script = [gen_fault(rng, n, excs, exc=exc) for _ in range(rng.choice([1, 2, 2, 3]))]
         if len({(f[0], f[1], f[2]) for f in script}) < len(script):
             continue
-        scn = {"n": n, "script": script, "ops": gen_ops(rng, rng.randint(4, 9), 0.2, rng.choice(script)[1])}
+        if rng.random() < 0.35:
+            script.append(gen_close_fault(rng, n, exc))
+        scn = {"n": n, "script": script, "ops": gen_ops(rng, rng.randint(4, 9), 0.2, rng.choice([f for f in script if f[1] != "close"])[1])}
         if valid_scenario(scn):
             scns.append(scn)
     return scns
@@ -876,6 +1072,8 @@ def gen_thorough(rng, excs: list) -> list[dict]:
     scns = gen_quick(rng, excs)
     for _ in range(3):
         scns += gen_directed(rng, excs)
+    scns += gen_exc_pathologies(rng, excs, full=True) + gen_handshake_deaths(rng, full=True)
+    scns += gen_subenv_close_faults(rng, excs, full=True)
     # fault matrix: every command × occurrence × worker × kind, consumed timed and untimed,
     # closed gracefully / with timeout / with terminate / collected, then used after close
     for cmd in CMDS:
@@ -917,7 +1115,9 @@ def gen_thorough(rng, excs: list) -> list[dict]:
         script = [gen_fault(rng, n, excs, exc=exc) for _ in range(rng.choice([2, 2, 3]))]
         if len({(f[0], f[1], f[2]) for f in script}) < len(script):
             continue
-        scn = {"n": n, "script": script, "ops": gen_ops(rng, rng.randint(4, 10), 0.2, rng.choice(script)[1],
+        if rng.random() < 0.35:
+            script.append(gen_close_fault(rng, n, exc))
+        scn = {"n": n, "script": script, "ops": gen_ops(rng, rng.randint(4, 10), 0.2, rng.choice([f for f in script if f[1] != "close"])[1],
                                                          after_close=rng.choice([0, 1, 2]))}
         if valid_scenario(scn):
             scns.append(scn)
@@ -954,6 +1154,12 @@ def keep(scn: dict, raw: list[str], ctx: Ctx) -> bool:
     that would only reproduce it"""
     if any(x.startswith("hang") for x in raw):
         return False
+    if any(f[3] == "stuck" and f[1] == "close" for f in scn["script"]):
+        # a sub-environment that never returns from its own close(): an untimed close() waits for that process
+        # for as long as it takes (documented: "never times out") — not run; every bounded variant is
+        first = next((op for op in scn["ops"] if op[0] in ("close", "gc")), None)
+        if first is not None and first[0] == "close" and not first[2] and (not first[1] or ctx.variant < 2):
+            return False
     if not ctx.kbd_close and any(f[3] == "raise" and f[4] == "KeyboardInterrupt" for f in scn["script"]):
         state = "default"
         for op, x in zip(scn["ops"], raw):
@@ -978,6 +1184,8 @@ def evaluate(chk: Check, pool: Pool, scns: list[dict], ctx: Ctx, raws=None):
         diff = next((i for i, (x, y) in enumerate(zip(impl, model)) if x != y), None)
         if diff is None and len(impl) != len(model):
             diff = min(len(impl), len(model))
+        if not has_model(scn):
+            model, diff = ["(fault kind without a model counterpart: oracle only)"], None
         out.append((impl, model, diff, oracle(scn, ans, ctx.variant), ans))
     return out
 
@@ -998,7 +1206,18 @@ PROBES = {
     "C13-exception-unpicklable-hang": {
         "n": 2, "script": [[1, "reset", 0, "raise", "UnpicklableFault"]], "op_bound": 7,
         "ops": [["reset_async"], ["reset_wait", 0], ["close", 0, 0]]},
+    # regression probes (fixed 360af15): the worker raises in a command and its process is killed inside the
+    # sub-environment's own close(), right after it handed its error report to the queue's feeder thread
+    "C13-error-report-lost-when-killed-in-cleanup": {
+        "n": 2, "script": [[1, "reset", 0, "raise", "ZeroDivisionError"], [1, "close", 0, "kill", None]], "op_bound": 7,
+        "ops": [["reset"], ["close", 0, 0]]},
+    "C13-error-report-lost-when-killed-in-cleanup/pending-close": {
+        "n": 2, "script": [[0, "step", 0, "raise", "ValueError"], [0, "close", 0, "kill", None]], "op_bound": 7,
+        "ops": [["reset"], ["step_async"], ["close", 1, 0]]},
 }
+# probes that are reported only when the failure shows twice, even with the exact known picture (a race
+# between the queue's feeder thread and SIGKILL)
+ALWAYS_TWICE = {"C13-error-report-lost-when-killed-in-cleanup", "C13-error-report-lost-when-killed-in-cleanup/pending-close"}
 
 
 # how each open finding shows on the tree that has it (canonical impl lines); anything else the probe
@@ -1010,6 +1229,8 @@ KNOWN_SIG = {
     "C13-exception-ctor-signature": ["ok step closed=0", "err:TypeError default closed=0", "ok default closed=1 alive=00"],
     "C13-exception-ctor-signature/kw": ["err:TypeError default closed=0", "ok default closed=1 alive=00"],
     "C13-exception-unpicklable-hang": ["ok reset closed=0", "hang", "unreached"],
+    "C13-error-report-lost-when-killed-in-cleanup": ["hang", "unreached"],
+    "C13-error-report-lost-when-killed-in-cleanup/pending-close": ["ok default closed=0", "ok step closed=0", "hang"],
 }
 
 
@@ -1021,7 +1242,7 @@ def run_probes(chk: Check, pool: Pool) -> Ctx:
     scns = [dict(PROBES[k], variant=2) for k in names]
     res = evaluate(chk, pool, scns, ctx)
     bad = {k: r for k, r in zip(names, res) if r[2] is not None or r[3]}
-    unsure = [k for k, r in bad.items() if r[0] != KNOWN_SIG[k]]
+    unsure = [k for k, r in bad.items() if r[0] != KNOWN_SIG[k] or k in ALWAYS_TWICE]
     if unsure:      # not the exact known picture: must reproduce (timing assumptions)
         again = evaluate(chk, pool, [dict(PROBES[k], variant=2) for k in unsure], ctx)
         for k, r in zip(unsure, again):
@@ -1047,7 +1268,7 @@ def run_probes(chk: Check, pool: Pool) -> Ctx:
     if not any(k.startswith("C13-exception-ctor-signature") for k in bad):
         ctx.excs += ODD_EXC
     if "C13-exception-unpicklable-hang" not in bad:
-        ctx.excs.append("UnpicklableFault")
+        ctx.excs += INSTANCE_UNPICKLABLE + CLASS_UNPICKLABLE
     for k in names:
         chk.case(["probe", k], nontrivial=True, tags=["probe", "probe-" + ("open" if k in bad else "pass")])
     return ctx
@@ -1108,11 +1329,14 @@ def tags_of(scn: dict, impl: list[str]) -> list[str]:
     t = [f"n{scn['n']}", f"faults{len(scn['script'])}"]
     t += [f"fault-{f[3]}-{f[1]}" for f in scn["script"]]
     t += [f"exc-{f[4]}" for f in scn["script"] if f[3] == "raise"]
+    t += ["exc-class-unpicklable" for f in scn["script"] if f[3] == "raise" and f[4] in CLASS_UNPICKLABLE]
+    t += ["exc-instance-unpicklable" for f in scn["script"] if f[3] == "raise" and f[4] in INSTANCE_UNPICKLABLE]
     for op, ln in zip(scn["ops"], impl):
         out = ln.split(" ")[0]
         t.append("out-" + (out if out in ("ok", "hang", "unreached") else out[4:] if out[4:] in PROTOCOL_ERRORS else "worker-exception"))
         if op[0] == "close":
-            t.append("close-" + ("terminate" if op[2] else {0: "plain", 1: "timeout", 2: "timeout0"}[op[1]]))
+            t.append("close-" + ("terminate" if op[2] else {0: "plain", 1: "timeout", 2: "timeout0", 3: "timeout-1ms",
+                                                             4: "timeout-long"}[op[1]]))
         elif op[0] == "gc":
             t.append("close-gc")
         elif op[0] in SYNC_OF:
@@ -1131,8 +1355,14 @@ def run(chk: Check) -> None:
                 "unclosed env; waits with timeout None / 0.25 / 0 / 0.001; legal walks with 20–45% injected misuse, "
                 "directed families: every rejected entry point × every pending kind followed by provenance-checked "
                 "results, every timeout value and close variant × stuck / sleeping / killed worker × pending kind, "
-                "every forwarded exception class × command) × fault scripts (worker, command ∈ reset/step/call/"
-                "set_attr, occurrence 0..2, raise T | sleep | stuck | kill; 0–3 faults, several workers) on 1–4 "
+                "every forwarded exception class × command; every pickling pathology of an exception — constructor "
+                "signature, unpicklable / unrebuildable instance, class not picklable by reference (closure, type(), "
+                "shadowed) — × every command; a worker that stays busy past a timed-out wait and dies during close() "
+                "(while the pending call / the `close` acknowledgement is awaited, `close` unread in its socket, with "
+                "and without a long close timeout); the sub-environment's own close() stuck / slow / killing / raising "
+                "after an error, after an error collected by close, after the acknowledgement, next to another failed "
+                "worker × every bounded close variant) × fault scripts (worker, command ∈ reset/step/call/"
+                "set_attr/close, occurrence 0..2, raise T | sleep | stuck | kill | busykill; 0–4 faults, several workers) on 1–4 "
                 "sub-environments, each in its own process group; distinct = distinct (n, script, ops); non-trivial "
                 "= some call returned an error (misuse or fault reached the caller)")
     chk.assumptions = [
@@ -1151,7 +1381,14 @@ def run(chk: Check) -> None:
         "close(timeout=None) waits for a sleeping worker by documented semantics; 'promptly' is checked as "
         "(scripted sleep still owed) + 3 s for an untimed close and 2·timeout + 3 s for close(timeout=…) / terminate / gc",
         "exception marshalling (pickling the exception object, rebuilding it in the parent) is outside the Lean model "
-        "(assumption A8); it is covered by the exception-class sweep and two probes only",
+        "(assumption A8); it is covered by the exception-class sweep, the pathology × command family and the probes only; "
+        "an exception whose CLASS cannot be pickled by reference cannot arrive as that class: the oracle accepts the "
+        "tree's documented fallback RuntimeError('<Class>: <message>') for it (it must arrive, nothing may hang)",
+        "faults inside the sub-environment's own close() have no counterpart in Model/VecProto.lean (its worker is "
+        "`exited` once it leaves the loop): a close() that kills the process or raises is compared with the model with "
+        "the fault erased (same outcomes); a close() that lingers (stuck / slow) and `busykill` (busy, then dead without "
+        "a reply) are checked by the oracle only; an untimed close() on a clean-up that never returns waits for as "
+        "long as it takes (documented) and is not run",
     ]
     chk.trusted_extra.append("harness/envs_fault.py (scripted fault-injecting ParallelEnv) and the zygote/child runner of harness/c13.py")
     corpus = []
@@ -1224,6 +1461,15 @@ def selftest(chk: Check, pool: Pool, ctx: Ctx) -> None:
           "ops": [["step_async"], ["step_wait", 2], ["close", 0, 1]]}),
         ("drop_keyboardinterrupt", "the worker does not forward KeyboardInterrupt",
          {"n": 2, "script": [[1, "reset", 0, "raise", "KeyboardInterrupt"]], "ops": [["reset_async"], ["reset_wait", 0], ["close", 0, 0]]}),
+        ("class_pickle_shortcut", "the worker's picklability check waves every class object through",
+         {"n": 2, "script": [[1, "step", 0, "raise", "LocalClassFault"]], "op_bound": 6,
+          "ops": [["step_async"], ["step_wait", 0], ["close", 0, 0]]}),
+        ("close_handshake_narrow_except", "close() only expects EOF / EPIPE from the shutdown handshake",
+         {"n": 2, "script": [[0, "step", 0, "busykill", None]],
+          "ops": [["step_async"], ["step_wait", 1], ["close", 0, 0], ["close", 0, 0]]}),
+        ("no_terminate_after_budget", "close(timeout) joins without terminating whoever outlives the budget",
+         {"n": 2, "script": [[1, "step", 0, "raise", "ValueError"], [1, "close", 0, "stuck", None]], "op_bound": 6,
+          "ops": [["step_async"], ["step_wait", 0], ["close", 1, 0]]}),
     ]
     res = evaluate(chk, pool, [dict(s, patch=p) for p, _, s in probes], ctx)
     for (p, what, _), (impl, model, diff, problems, _) in zip(probes, res):
